@@ -68,6 +68,17 @@ def shard(args):
     widths = WIDTHS_Q if tier == 'quick' else WIDTHS_T
     maxn = 5 if tier == 'quick' else 6
     cases = [spec for j, spec in enumerate(LR.specs(maxn, classic=True)) if j % n == idx]
+    if idx == 1 % n:
+        # large documents (sizes no enumeration reaches): long concats, many pending stack entries, deep groups, wide pages
+        for spec, Ws, fracs in LR.large_specs():
+            for W in Ws:
+                for frac in fracs:
+                    for strategy in ('smart', 'fast'):
+                        acc['evaluations'] += 1
+                        r = check_doc(mods_, spec, W, frac, strategy, acc['counters'])
+                        if r is not None:
+                            acc['violations'].append({'kind': r[0], 'case': {'spec': spec, 'W': W, 'frac': frac, 'strategy': strategy},
+                                                      'observed': r[1], 'expected': r[2], 'tags': sorted(r[3])})
     rng = random.Random(seed * 1000 + idx)
     for _ in range(150 if tier == 'quick' else 3000):
         cases.append(LR.random_spec(rng, rng.randint(6, 18), classic=True))
